@@ -31,6 +31,7 @@ type W struct {
 	Servers      []LocalServer
 	LocalClient  api.FeatureLocalInterface // Measurement client on entity [1]
 	LocalClient2 api.FeatureLocalInterface // LoadControl client on entity [1]
+	Generic      api.FeatureLocalInterface // server feature of the type Generic on entity [2] (not in Servers)
 	Entity       api.EntityLocalInterface
 	Entity2      api.EntityLocalInterface
 	Entity3      api.EntityLocalInterface // [1,1]
@@ -56,6 +57,7 @@ func PeerEntities() []world.EntSpec {
 			{ID: 3, Type: model.FeatureTypeTypeElectricalConnection, Role: model.RoleTypeClient},
 			{ID: 4, Type: model.FeatureTypeTypeMeasurement, Role: model.RoleTypeServer, Funcs: []world.FuncSpec{{Fn: model.FunctionTypeMeasurementListData, Read: true}}},
 			{ID: 5, Type: model.FeatureTypeTypeLoadControl, Role: model.RoleTypeClient},
+			{ID: 6, Type: model.FeatureTypeTypeGeneric, Role: model.RoleTypeClient},
 		}},
 		{Addr: []uint{2}, Type: model.EntityTypeTypeEVSE, Feats: []world.FeatSpec{
 			{ID: 1, Type: model.FeatureTypeTypeMeasurement, Role: model.RoleTypeClient},
@@ -96,6 +98,11 @@ func NewWithUnannounced(n, k int) *W {
 		{Fn: s0.rw, Read: true, Write: true}, {Fn: s0.ro, Read: true},
 	}})
 	w.Servers = append(w.Servers, LocalServer{F: f2, Type: s0.ft, Writable: s0.rw, ReadOnly: s0.ro, Unannounced: s0.un})
+	// a server feature of the type Generic (devices that do not say what a feature is): it stands for
+	// any feature type in subscription and binding requests. Not part of w.Servers.
+	w.Generic = w.AddLocalFeature(le2, world.FeatSpec{Type: model.FeatureTypeTypeGeneric, Role: model.RoleTypeServer, Funcs: []world.FuncSpec{
+		{Fn: model.FunctionTypeLoadControlLimitListData, Read: true, Write: true},
+	}})
 	// a sub-entity of [1] whose first feature has the same number as the first feature of [1]
 	le3 := w.AddLocalEntity([]uint{1, 1}, model.EntityTypeTypeEV, time.Second)
 	w.Entity3 = le3
@@ -131,11 +138,20 @@ var ClientRefs = []Ref{
 	{[]uint{1}, 9}, // unknown feature
 	{[]uint{3}, 1}, // unknown entity
 	{[]uint{0}, 0}, // NodeManagement (special)
+	GenericClientRef,
 }
+
+// GenericRef is the local server feature of the type Generic, GenericClientRef the peers' client
+// feature of that type.
+var (
+	GenericRef       = Ref{[]uint{2}, 2}
+	GenericClientRef = Ref{[]uint{1}, 6}
+)
 
 // ServerRefs are the candidate server-side references on the local device.
 var ServerRefs = []Ref{
 	{[]uint{1}, 1}, {[]uint{1}, 2}, {[]uint{1}, 3}, {[]uint{2}, 1}, {[]uint{1, 1}, 1}, // the server features (same order as W.Servers)
+	GenericRef,
 	{[]uint{1}, 4}, // the local client feature (wrong role)
 	{[]uint{1}, 9}, // unknown feature
 	{[]uint{4}, 1}, // unknown entity
@@ -164,6 +180,23 @@ func DrawCall(t *rapid.T, w *W, label string) Call {
 	if nm := (Ref{[]uint{0}, 0}); w.Peers[c.Peer].Ents == nil && rapid.IntRange(0, 3).Draw(t, label+".nodeManagement") != 0 {
 		// all a peer can ask for before it has announced itself: node management to node management
 		c.Server, c.Client, c.Type = nm, nm, model.FeatureTypeTypeNodeManagement
+	} else if g := rapid.IntRange(0, 11).Draw(t, label+".generic"); g == 0 {
+		// the Generic server feature, asked for as any type by a client of that type
+		c.Server = GenericRef
+		c.Type = rapid.SampledFrom(callTypes[:3]).Draw(t, label+".asType")
+		var cands []Ref
+		for _, e := range PeerEntities() {
+			for _, f := range e.Feats {
+				if f.Type == c.Type && f.Role == model.RoleTypeClient {
+					cands = append(cands, Ref{e.Addr, f.ID})
+				}
+			}
+		}
+		c.Client = cands[rapid.IntRange(0, len(cands)-1).Draw(t, label+".client")]
+	} else if g == 1 {
+		// the Generic client feature on a typed server feature
+		si := rapid.IntRange(0, len(w.Servers)-1).Draw(t, label+".server")
+		c.Server, c.Type, c.Client = ServerRefs[si], w.Servers[si].Type, GenericClientRef
 	} else if rapid.IntRange(0, 3).Draw(t, label+".wellformed") != 0 {
 		// matching pair by type
 		si := rapid.IntRange(0, len(w.Servers)-1).Draw(t, label+".server")
@@ -207,12 +240,18 @@ func (w *W) ServerAddr(c Call) *model.FeatureAddressType {
 // roleOK: special is accepted on both sides (as in the repository's own NodeManagement fixture).
 func roleOK(role, want model.RoleType) bool { return role == want || role == model.RoleTypeSpecial }
 
+// typeOK: a feature of the type Generic stands for any feature type (function_data_factory.go gives it
+// every function for that reason); any other feature has to be of the requested type.
+func typeOK(have, want model.FeatureTypeType) bool {
+	return have == want || have == model.FeatureTypeTypeGeneric
+}
+
 // Eligible is the grant rule of the statement, minus the registry-state condition: the server
 // feature exists with server (or special) role and the requested type, the client feature exists
 // on that peer with client (or special) role and the same type.
 func (w *W) Eligible(c Call) bool {
 	sf := w.Local.FeatureByAddress(world.LA(c.Server.Ent, c.Server.Feat))
-	if sf == nil || !roleOK(sf.Role(), model.RoleTypeServer) || sf.Type() != c.Type {
+	if sf == nil || !roleOK(sf.Role(), model.RoleTypeServer) || !typeOK(sf.Type(), c.Type) {
 		return false
 	}
 	ents := w.Peers[c.Peer].Ents
@@ -225,7 +264,7 @@ func (w *W) Eligible(c Call) bool {
 		}
 		for _, f := range e.Feats {
 			if f.ID == c.Client.Feat {
-				return roleOK(f.Role, model.RoleTypeClient) && f.Type == c.Type
+				return roleOK(f.Role, model.RoleTypeClient) && typeOK(f.Type, c.Type)
 			}
 		}
 	}
